@@ -42,7 +42,8 @@ type tree struct {
 	V    string // leaf text
 	Nil  bool   // nil pointer / nil map / nil interface
 	Kids map[string]*tree
-	Elem *tree // ptr / iface payload
+	Elem *tree    // ptr / iface payload
+	Emb  []string // struct: names of the embedded fields (their fields are promoted)
 }
 
 // toTree renders v; values nested deeper than 40 levels (only cyclic values are: an
@@ -66,7 +67,11 @@ func toTreeD(v reflect.Value, depth int) *tree {
 	case reflect.Struct:
 		t := &tree{K: "struct", T: v.Type().String(), Kids: map[string]*tree{}}
 		for i := 0; i < v.NumField(); i++ {
-			t.Kids[v.Type().Field(i).Name] = toTreeD(v.Field(i), depth+1)
+			sf := v.Type().Field(i)
+			t.Kids[sf.Name] = toTreeD(v.Field(i), depth+1)
+			if sf.Anonymous {
+				t.Emb = append(t.Emb, sf.Name)
+			}
 		}
 		return t
 	case reflect.Ptr:
@@ -81,7 +86,14 @@ func toTreeD(v reflect.Value, depth int) *tree {
 		t := &tree{K: "map", Kids: map[string]*tree{}}
 		it := v.MapRange()
 		for it.Next() {
-			t.Kids[fmt.Sprint(it.Key().Interface())] = toTreeD(it.Value(), depth+1)
+			k := it.Key()
+			ks := ""
+			if k.Kind() == reflect.String {
+				ks = k.String()
+			} else {
+				ks = fmt.Sprint(k.Interface())
+			}
+			t.Kids[ks] = toTreeD(it.Value(), depth+1)
 		}
 		return t
 	case reflect.Interface:
@@ -273,10 +285,11 @@ const (
 	gNoField                // a struct on the path lacks the field
 	gNotContainer           // a non-struct/map value on the path
 	gBadKey                 // a map whose key type is not string
+	gNilEmb                 // the field is promoted through an embedded pointer that is nil
 )
 
 func (s getStatus) String() string {
-	return [...]string{"ok", "absent-map-key", "nil-pointer", "nil-interface", "no-such-field", "not-a-container", "non-string-key-map"}[s]
+	return [...]string{"ok", "absent-map-key", "nil-pointer", "nil-interface", "no-such-field", "not-a-container", "non-string-key-map", "nil-embedded-pointer"}[s]
 }
 
 // refGet follows path inside v. Interfaces and pointers (any depth) are looked
@@ -326,9 +339,12 @@ func refGetX(v any, path []string) (any, getStatus, where) {
 		}
 		switch cur.Kind() {
 		case reflect.Struct:
-			f := cur.FieldByName(el)
-			if !f.IsValid() {
+			f, found, nilEmb := getField(cur, el)
+			if !found {
 				return nil, gNoField, w()
+			}
+			if nilEmb {
+				return nil, gNilEmb, w()
 			}
 			cur = f
 		case reflect.Map:
@@ -369,7 +385,7 @@ func leafType(t reflect.Type, path []string) (reflect.Type, bool) {
 		switch {
 		case t.Kind() == reflect.Struct:
 			f, ok := t.FieldByName(el)
-			if !ok || !f.IsExported() {
+			if !ok || !settableTarget(t, el) {
 				return nil, false
 			}
 			t = f.Type
@@ -409,9 +425,9 @@ func refSet(cur reflect.Value, path []string, val any) error {
 	el, rest := path[0], path[1:]
 	switch {
 	case cur.Kind() == reflect.Struct:
-		f := cur.FieldByName(el)
-		if !f.IsValid() {
-			return fmt.Errorf("no field %s in %v", el, cur.Type())
+		f, err := setField(cur, el)
+		if err != nil {
+			return err
 		}
 		return refSet(f, rest, val)
 	case cur.Kind() == reflect.Map:
